@@ -155,8 +155,17 @@ def run_shards(cid, specs, timeout_s, M, verbose=False):
     return results
 
 
+def out_dir(name):
+    """evidence/ and replays/ live in /verif only for runs against /repo itself; self-test runs
+    against a scratch copy (VERIF_REPO) write to VERIF_OUT_DIR (or a temp dir)."""
+    if REPO == "/repo" and not os.environ.get("VERIF_OUT_DIR"):
+        return os.path.join(VERIF_DIR, name)
+    base = os.environ.get("VERIF_OUT_DIR") or os.path.join("/tmp", "vf-out-" + h64(REPO))
+    return os.path.join(base, name)
+
+
 def write_replay(cid, v):
-    d = os.path.join(VERIF_DIR, "replays")
+    d = out_dir("replays")
     os.makedirs(d, exist_ok=True)
     digest = h64({"m": v["monitor"], "c": v["case"]})
     path = os.path.join(d, "%s-%s.json" % (cid, digest))
@@ -215,7 +224,7 @@ def write_evidence(cid, mod, tier, seed, M, wall, n_unlisted, extra):
         "wall_s": round(wall, 2),
         "violations": n_unlisted,
     }
-    d = os.path.join(VERIF_DIR, "evidence")
+    d = out_dir("evidence")
     os.makedirs(d, exist_ok=True)
     tmp = os.path.join(d, cid + ".json.tmp")
     with open(tmp, "w", encoding="utf-8") as f:
